@@ -154,6 +154,23 @@ def members_are_values(it, lst, col):
                               zbool(veq(it, lst.get(k), z['wrap'](z['val'](i)))))))))
 
 
+@specfn
+def forall_int(it, lo, hi, pred):
+    """forall j. lo <= j < hi -> pred(j)"""
+    from pyvc.sym import num_z
+    j = it.bound_var('fj')
+    old = it.quant_depth
+    it.quant_depth += 1
+    sm, it.specmode = it.specmode, True
+    try:
+        body = truth(it, it.call(pred, [SInt(j)], {}))
+    finally:
+        it.quant_depth = old
+        it.specmode = sm
+    zl, zh = num_z(lo)[0], num_z(hi)[0]
+    return SBool(z3.ForAll([j], z3.Implies(z3.And(j >= zl, j < zh), zbool(body))))
+
+
 def _static(v):
     return v.pytype if isinstance(v, Sym) else type(v)
 
@@ -235,7 +252,7 @@ PRIMS = {
     'whole': whole, 'rex_match': rex_match, 'is_datev': is_datev,
     'is_numv': is_numv, 'is_strv': is_strv, 'is_boolv': is_boolv,
     'implies': implies, 'iff': iff, 'called': called, 'call_args': call_args,
-    'hook_args_ok': hook_args_ok, 'members_are_values': members_are_values,
+    'hook_args_ok': hook_args_ok, 'forall_int': forall_int, 'members_are_values': members_are_values,
     'datetime': extract.ModuleRef('datetime'),
 }
 
